@@ -670,7 +670,9 @@ class LLUDPMessageLogEntry(AbstractMessageLogEntry):
 
     def __init__(self, message: Message, region, session):
         self._message: Message = message
-        self._deserializer = None
+        # The message only weakly refers to its deserializer, and an unparsed body is
+        # useless without it. Keep it alive for as long as the entry is.
+        self._deserializer = message.deserializer() if message.deserializer else None
         self._name = message.name
         self._direction = message.direction
         self._frozen_message: typing.Optional[bytes] = None
@@ -699,7 +701,8 @@ class LLUDPMessageLogEntry(AbstractMessageLogEntry):
             return self._message
         elif self._frozen_message:
             message = pickle.loads(self._frozen_message)
-            message.deserializer = self._deserializer
+            if self._deserializer is not None:
+                message.deserializer = weakref.ref(self._deserializer)
             return message
         else:
             raise ValueError("Didn't have a fresh or frozen message somehow")
@@ -709,12 +712,12 @@ class LLUDPMessageLogEntry(AbstractMessageLogEntry):
         message.invalidate_caches()
         # These are expensive to keep around. pickle them and un-pickle on
         # an as-needed basis.
-        self._deserializer = self.message.deserializer
+        deserializer_ref = message.deserializer
         message.deserializer = None
         try:
             self._frozen_message = pickle.dumps(self._message, protocol=pickle.HIGHEST_PROTOCOL)
         finally:
-            message.deserializer = self._deserializer
+            message.deserializer = deserializer_ref
         self._message = None
 
     @property
